@@ -201,6 +201,8 @@ def check(col: Collector, tier: str):
     check_container_elements(col, "C05.R8", m)
     import_obligations(col, "C05.R8", "c17", lambda o: o.detail == "all-files-kept-in-order",
                        "a file list that is de-duplicated or re-ordered makes one job differ from the same files split across jobs")
+    import_obligations(col, "C05.R8", "c16", lambda o: o.rule == "C16.R2" and o.detail.startswith("step-context:") and ("cmsRun" in o.detail or "ATestRun_eljob" in o.detail),
+                       "a job step whose failure is masked lets the script deliver the output the PREVIOUS run left in the build directory")
     import_obligations(col, "C05.R8", "c16", lambda o: o.detail == "delivery-command-overwrites",
                        "a run that keeps the previous run's output delivers another job's rows")
     # ------------------------------------------------------------ R9 every block-local that feeds a column is assigned on every path of ITS event
@@ -217,6 +219,23 @@ def check(col: Collector, tier: str):
                         "both-arms-assign-the-same-result"):
             col.add("C05.R9", o.construct, o.detail, o.ok, o.msg + " (otherwise an uninitialised local is written into the row: it holds the previous event's value)", o.loc)
     check_no_state_on_query_nodes(col, "C05.R9", repo)
+    # a scalar column is assigned where its value is computed if that is inside the fill's block, else at the fill: assigned in an
+    # enclosing block AFTER the inner loop that fills, every row carries the previous element's (or event's) value
+    from sa.props._tr import check_core_scope_semantics
+    subc = Collector("C05")
+    check_core_scope_semantics(subc, "C05.R9", repo)
+    for o in subc.obs:
+        if o.construct.endswith("code_fill_ttree"):
+            col.add("C05.R9", o.construct, o.detail, o.ok, o.msg, o.loc)
+    # R10 a drop-in function is a pure function of its arguments: the table maps Python names to functions of namespace std only
+    # (a generator such as gRandom->Rndm carries state from every earlier event, rejected ones included)
+    cf = repo.mod("common.cpp_functions")
+    rows = [c for c in ast.walk(cf.tree) if isinstance(c, ast.Call) and call_name(c) == "add_function_mapping" and len(c.args) >= 2]
+    impure = [f"{const_str(c.args[0])} -> {const_str(c.args[1])}" for c in rows if not (const_str(c.args[1]) or "").startswith("std::")]
+    if len(rows) < 40:
+        raise AnalysisError(f"C05.R10: {len(rows)} function table rows found (at least 40 confirmed by hand)")
+    col.add("C05.R10", "cpp_functions.table", "drop-in-functions-are-stateless", not impure,
+            f"{len(rows)} rows; rows whose C++ side is not a function of namespace std: {impure}", cf.rel)
     # ------------------------------------------------------------ R5 templates
     check_templates(col)
     # ------------------------------------------------------------ R6 / R7
@@ -311,6 +330,8 @@ def check_templates(col: Collector):
 
 def check_cfg_and_runner(col: Collector):
     col.floor("C05.R6", 2)
+    from sa.props._tr import check_cfg_filelist
+    check_cfg_filelist(col, "C05.R6")
     for rel in ("func_adl_xAOD/template/cms/r5/analyzer_cfg.py", "func_adl_xAOD/template/cms/r7/analyzer_cfg.py"):
         p = REPO / rel
         tree = ast.parse(p.read_text())
